@@ -241,6 +241,7 @@ pub mod {name} {{
          Some(())
       }}
       fn run(&mut self) {{ match &self.pool {{ Some(pl) => {{ let p = &mut self.p; pl.install(|| p.run()) }}, None => self.p.run() }} }}
+      fn run_here(&mut self) {{ self.p.run() }}
       fn run_timeout(&mut self, k: usize) -> Option<bool> {{ {rt} }}
       fn dump(&self) -> String {{ vec![{', '.join(dumps)}].join(" | ") }}
       fn iters(&self) -> String {{ format!("iters {{}}", self.p.scc_iters.iter().map(|x| x.to_string()).collect::<Vec<_>>().join(" ")) }}
